@@ -40,7 +40,8 @@ class Unsupported(Exception):
     pass
 
 
-BYTES_VARS = {"recvd", "nxt", "delimiter", "chunks", "last", "val", "sbuf0", "rbuf", "data", "ret"}
+BYTES_VARS = {"recvd", "nxt", "delimiter", "chunks", "last", "val", "sbuf0", "rbuf", "data", "ret",
+              "size_prefix", "consumed", "payload", "trailer"}
 INT_VARS = {"offset", "rbuf_offset", "find_offset_start", "maxsize", "len_delimiter", "total_bytes", "size",
             "extra_bytes", "sent", "total_sent"}
 BOOL_VARS = {"with_delimiter", "timeout"}
@@ -63,6 +64,10 @@ def is_sock(n):
 def var_of_target(t):
     if isinstance(t, ast.Name):
         return t.id
+    if dump(t).startswith("Attribute(value=Attribute(value=Name(id='self', ctx=Load()), attr='bsock', ctx=Load()), attr='rbuf'"):
+        return "rbuf"
+    if dump(t).startswith("Attribute(value=Name(id='self', ctx=Load()), attr='maxsize'"):
+        return "maxsize"
     if isinstance(t, ast.Attribute) and isinstance(t.value, ast.Name) and t.value.id == "self" and t.attr == "rbuf":
         return "rbuf"
     if isinstance(t, ast.Subscript) and isinstance(t.value, ast.Name) and t.value.id == "sbuf" \
@@ -103,6 +108,8 @@ class E:
                 return ("(%d)%%Z" % n.value, "int")
             if n.value == b"":
                 return ("(@nil N)", "bytes")
+            if type(n.value) is bytes:
+                return ("[" + "; ".join("%d%%N" % c for c in n.value) + "]", "bytes")
             raise Unsupported("constant %r" % (n.value,))
         if isinstance(n, ast.Name):
             nm = (self.alias or {}).get(n.id, n.id)
@@ -111,6 +118,9 @@ class E:
         if isinstance(n, ast.Attribute) and var_of_target(n) == "rbuf":
             self.use("rbuf")
             return ("rbuf", "bytes")
+        if isinstance(n, ast.Attribute) and var_of_target(n) == "maxsize":
+            self.use("maxsize")
+            return ("maxsize", "int")
         if isinstance(n, ast.Subscript):
             if isinstance(n.slice, ast.Constant):
                 self.use(var_of_target(n))
@@ -133,6 +143,12 @@ class E:
             return ("(%s %s %s)" % (self.int(n.left), "+" if isinstance(n.op, ast.Add) else "-", self.int(n.right)), "int")
         if isinstance(n, ast.Call):
             f = n.func
+            if isinstance(f, ast.Name) and f.id == "str" and len(n.args) == 1 and not n.keywords:
+                # str(n) of a non-negative int: decimal notation (as ASCII bytes: only len() and .encode('ascii') use it)
+                return ("(dec (Z.to_nat %s))" % self.int(n.args[0]), "bytes")
+            if isinstance(f, ast.Attribute) and f.attr == "encode" and dump(n.args) == "[Constant(value='ascii')]" \
+                    and isinstance(f.value, ast.Call) and isinstance(f.value.func, ast.Name) and f.value.func.id == "str":
+                return self.expr(f.value)
             if isinstance(f, ast.Name) and f.id == "len" and len(n.args) == 1 and not n.keywords:
                 return ("(py_len %s)" % self.bytes(n.args[0]), "int")
             if isinstance(f, ast.Name) and f.id == "bytes" and len(n.args) == 1 and not n.keywords:
@@ -162,6 +178,10 @@ class E:
             op = {ast.Eq: "=?", ast.NotEq: "<>?", ast.Gt: ">?", ast.GtE: ">=?", ast.Lt: "<?", ast.LtE: "<=?"}.get(type(n.ops[0]))
             if op is None:
                 raise Unsupported("comparison %s" % dump(n))
+            lt, lk = self.expr(n.left)
+            if lk == "bytes" and op in ("=?", "<>?"):
+                t = "(bytes_eqb %s %s)" % (lt, self.bytes(n.comparators[0]))
+                return t if op == "=?" else "(negb %s)" % t
             a, b = self.int(n.left), self.int(n.comparators[0])
             if op == "<>?":
                 return "(negb (%s =? %s)%%Z)" % (a, b)
@@ -313,6 +333,9 @@ class Body(E):
             return pad + "let %s := %s in\n" % (nme, txt) + self.stmts(rest, ind, bound | {nme})
         if isinstance(s, ast.AugAssign) and isinstance(s.op, ast.Add):
             nme = var_of_target(s.target)
+            if kind(nme) == "bytes":
+                self.use(nme)
+                return pad + "let %s := (%s ++ %s) in\n" % (nme, nme, self.bytes(s.value)) + self.stmts(rest, ind, bound | {nme})
             if kind(nme) != "int":
                 raise Unsupported("+= on %s" % nme)
             self.use(nme)
@@ -369,7 +392,7 @@ def find_while(fn):
     return found[0]
 
 
-ORDER = ["delimiter", "size", "maxsize", "len_delimiter", "with_delimiter", "timeout", "rbuf", "data", "recvd", "chunks", "sbuf0",
+ORDER = ["size_prefix", "consumed", "payload", "trailer", "delimiter", "size", "maxsize", "len_delimiter", "with_delimiter", "timeout", "rbuf", "data", "recvd", "chunks", "sbuf0",
          "find_offset_start", "offset", "rbuf_offset", "total_bytes", "total_sent", "nxt", "sent", "late"]
 TYPES = {"bytes": "bytes", "int": "Z", "bool": "bool"}
 
@@ -533,6 +556,114 @@ def gen_recv_close(tree):
     return out
 
 
+def one_def(name, body, text, rettype):
+    return "Definition %s %s : %s :=\n  %s.\n" % (name, params_used(body.free), rettype, text)
+
+
+def gen_netstring(tree):
+    """NetstringSocket.read_ns / write_ns / _calc_msgsize_maxsize: the statements between the three buffered-socket
+    calls, whose ORDER is checked (payload = recv_size; consumed += payload; trailer = recv(1))."""
+    E.alias = None
+    out = []
+    # --- _calc_msgsize_maxsize and the same expression in __init__
+    fn = get_method(tree, "NetstringSocket", "_calc_msgsize_maxsize")
+    body = [x for x in fn.body if not (isinstance(x, ast.Expr) and isinstance(x.value, ast.Constant))]
+    if not (len(body) == 1 and isinstance(body[0], ast.Return)):
+        raise Unsupported("_calc_msgsize_maxsize: expected a single return")
+    e = Body([], "recv")
+    out.append(one_def("src_ns_msgsize", e, e.int(body[0].value), "Z"))
+    init = get_method(tree, "NetstringSocket", "__init__")
+    same = [x for x in init.body if isinstance(x, ast.Assign) and dump(x.targets) ==
+            "[Attribute(value=Name(id='self', ctx=Load()), attr='_msgsize_maxsize', ctx=Store())]"]
+    if not (len(same) == 1 and dump(same[0].value) == dump(body[0].value)):
+        raise Unsupported("NetstringSocket.__init__: _msgsize_maxsize is not computed as in _calc_msgsize_maxsize")
+    # --- read_ns
+    fn = get_method(tree, "NetstringSocket", "read_ns")
+    ss = list(fn.body)
+    if dump(ss[0]) not in PREAMBLE:
+        raise Unsupported("read_ns: first statement")
+    want1 = ("If(test=Compare(left=Name(id='maxsize', ctx=Load()), ops=[Is()], comparators=[Name(id='_UNSET', ctx=Load())]), "
+             "body=[Assign(targets=[Name(id='maxsize', ctx=Store())], value=Attribute(value=Name(id='self', ctx=Load()), "
+             "attr='maxsize', ctx=Load())), Assign(targets=[Name(id='msgsize_maxsize', ctx=Store())], "
+             "value=Attribute(value=Name(id='self', ctx=Load()), attr='_msgsize_maxsize', ctx=Load()))], "
+             "orelse=[Assign(targets=[Name(id='msgsize_maxsize', ctx=Store())], value=Call(func=Attribute(value=Name(id='self', "
+             "ctx=Load()), attr='_calc_msgsize_maxsize', ctx=Load()), args=[Name(id='maxsize', ctx=Load())], keywords=[]))])")
+    if dump(ss[1]) != want1:
+        raise Unsupported("read_ns: maxsize / msgsize_maxsize resolution %s" % dump(ss[1]))
+    a = ss[2]
+    if not (isinstance(a, ast.Assign) and dump(a.targets) == "[Name(id='size_prefix', ctx=Store())]"
+            and isinstance(a.value, ast.Call) and dump(a.value.func) ==
+            "Attribute(value=Attribute(value=Name(id='self', ctx=Load()), attr='bsock', ctx=Load()), attr='recv_until', ctx=Load())"
+            and len(a.value.args) == 1 and isinstance(a.value.args[0], ast.Constant) and type(a.value.args[0].value) is bytes
+            and dump(a.value.keywords) == "[keyword(arg='timeout', value=Name(id='timeout', ctx=Load())), "
+                                          "keyword(arg='maxsize', value=Name(id='msgsize_maxsize', ctx=Load()))]"):
+        raise Unsupported("read_ns: the recv_until call %s" % dump(a))
+    e = Body([], "recv")
+    out.append(one_def("src_ns_delim", e, e.bytes(a.value.args[0]), "bytes"))
+    want3 = ("Try(body=[Assign(targets=[Name(id='size', ctx=Store())], value=Call(func=Name(id='int', ctx=Load()), "
+             "args=[Name(id='size_prefix', ctx=Load())], keywords=[]))], handlers=[ExceptHandler(type=Name(id='ValueError', ctx=Load()), "
+             "body=[Raise(exc=Call(func=Name(id='NetstringInvalidSize', ctx=Load())")
+    if not (dump(ss[3]).startswith(want3) and not ss[3].orelse and not ss[3].finalbody and len(ss[3].handlers) == 1):
+        raise Unsupported("read_ns: size = int(size_prefix) %s" % dump(ss[3]))
+    c = ss[4]
+    if not (isinstance(c, ast.If) and not c.orelse and len(c.body) == 1 and isinstance(c.body[0], ast.Raise)
+            and dump(c.body[0].exc).startswith("Call(func=Name(id='NetstringMessageTooLong'")):
+        raise Unsupported("read_ns: the size check %s" % dump(c))
+    e = Body([], "recv")
+    out.append(one_def("src_ns_too_long", e, e.test(c.test), "bool"))
+    d = ss[5]
+    if not (isinstance(d, ast.Assign) and dump(d.targets) == "[Name(id='consumed', ctx=Store())]"):
+        raise Unsupported("read_ns: consumed = ... %s" % dump(d))
+    e = Body([], "recv")
+    out.append(one_def("src_ns_consumed0", e, e.bytes(d.value), "bytes"))
+    t = ss[6]
+    bs_call = "Call(func=Attribute(value=Attribute(value=Name(id='self', ctx=Load()), attr='bsock', ctx=Load()), attr='%s', ctx=Load()), args=[%s], keywords=[])"
+    if not (isinstance(t, ast.Try) and len(t.body) == 3 and not t.orelse and not t.finalbody
+            and dump(t.body[0]) == "Assign(targets=[Name(id='payload', ctx=Store())], value=%s)" % (bs_call % ("recv_size", "Name(id='size', ctx=Load())"))
+            and isinstance(t.body[1], ast.AugAssign) and dump(t.body[1].target) == "Name(id='consumed', ctx=Store())"
+            and dump(t.body[2]) == "Assign(targets=[Name(id='trailer', ctx=Store())], value=%s)" % (bs_call % ("recv", "Constant(value=1)"))):
+        raise Unsupported("read_ns: the try body must be payload = recv_size(size); consumed += ...; trailer = recv(1): %s"
+                          % [dump(x) for x in t.body])
+    b = Body(["consumed"], "recv")
+    b.mode = "post"
+    txt = b.stmts([t.body[1]], 1)
+    out.append(definition("src_ns_consumed1", b, txt, "iter unit bytes unit"))
+    if not (len(t.handlers) == 1 and dump(t.handlers[0].type) == "Attribute(value=Name(id='socket', ctx=Load()), attr='error', ctx=Load())"
+            and len(t.handlers[0].body) == 2 and isinstance(t.handlers[0].body[0], ast.With) and len(t.handlers[0].body[0].body) == 1
+            and isinstance(t.handlers[0].body[1], ast.Raise) and t.handlers[0].body[1].exc is None):
+        raise Unsupported("read_ns: the un-read handler")
+    b = Body(["rbuf"], "recv")
+    b.mode = "post"
+    out.append(definition("src_ns_unread", b, b.stmts(t.handlers[0].body[0].body, 1), "iter unit bytes unit"))
+    f = ss[7]
+    if not (isinstance(f, ast.If) and not f.orelse and len(f.body) == 1 and isinstance(f.body[0], ast.Raise)
+            and dump(f.body[0].exc).startswith("Call(func=Name(id='NetstringProtocolError'")):
+        raise Unsupported("read_ns: trailer check")
+    e = Body([], "recv")
+    out.append(one_def("src_ns_trailer_bad", e, e.test(f.test), "bool"))
+    if not (len(ss) == 9 and dump(ss[8]) == "Return(value=Name(id='payload', ctx=Load()))"):
+        raise Unsupported("read_ns: return payload")
+    # --- write_ns
+    fn = get_method(tree, "NetstringSocket", "write_ns")
+    ws = list(fn.body)
+    if not (len(ws) == 4 and dump(ws[0]) == "Assign(targets=[Name(id='size', ctx=Store())], value=Call(func=Name(id='len', "
+            "ctx=Load()), args=[Name(id='payload', ctx=Load())], keywords=[]))"
+            and isinstance(ws[1], ast.If) and not ws[1].orelse and len(ws[1].body) == 1 and isinstance(ws[1].body[0], ast.Raise)
+            and dump(ws[1].body[0].exc).startswith("Call(func=Name(id='NetstringMessageTooLong'")
+            and isinstance(ws[2], ast.Assign) and dump(ws[2].targets) == "[Name(id='data', ctx=Store())]"
+            and dump(ws[3]) == "Expr(value=%s)" % (bs_call % ("send", "Name(id='data', ctx=Load())"))):
+        raise Unsupported("write_ns: statements %s" % [dump(x) for x in ws])
+    e = Body([], "send")
+    e.cur_bound = frozenset()
+    sz, _ = e.expr(ws[0].value)
+    tl = e.test(ws[1].test)
+    out.append("Definition src_ns_write_too_long (payload : bytes) (maxsize : Z) : bool :=\n  let size := %s in %s.\n" % (sz, tl))
+    e = Body([], "send")
+    dat = e.bytes(ws[2].value)
+    out.append("Definition src_ns_frame (payload : bytes) : bytes :=\n  let size := %s in %s.\n" % (sz, dat))
+    return "\n".join(out)
+
+
 def translate(repo):
     path = os.path.join(repo, "boltons", "socketutils.py")
     tree = ast.parse(open(path).read())
@@ -602,6 +733,7 @@ def translate(repo):
     out.append(gen_recv(tree))
     out.append(gen_peek(tree))
     out.append(gen_recv_close(tree))
+    out.append(gen_netstring(tree))
     return "\n".join(out)
 
 
